@@ -26,7 +26,7 @@ ENC_ASSUMPTIONS = [
 
 ROLLER_ASSUMPTIONS = [
     "roller: one record = one write call whose buffer the BufWriter/OS accepts whole (always below 8 KiB; above, a regular-file write is assumed complete) - the driver reports any partial write as clause partial-write",
-    "roller: the file system does not fail (no I/O errors in rename/open/remove/gzip) and nobody else touches the directory; files are those of one appender whose prefix contains no '.<date>.<digits>' pattern",
+    "roller: the file system does not fail (no I/O errors in rename/open/remove/gzip) and nobody else writes to the directory while the appender runs; foreign files (sibling appenders sharing the prefix, unrelated files) may be present and are modelled as untouched (C20_roller_foreign_untouched) - except files named '<prefix>.<anything>.<date>.<digits>...' and prefixes that themselves contain '.<date>.<digits>', where the unanchored file-name regex mis-attributes files (known findings F-roller-dotted-sibling, F-roller-dated-prefix, replayed on the implementation, outside the model)",
     "roller: chrono's mapping between instants, period starts and the period strings in file names is not modelled (time is a period index); it is exercised by the D1 driver incl. day/month/leap-day/year boundaries and first/last instants of a period",
     "roller: sequence numbers and max_retained are unbounded N in the model (u32 in the code); gzip round trip (flate2) is trusted, the driver decodes compressed files",
     "roller: the order/newest clauses assume a clock that never goes backwards (Props/C20_roller.v: _except_backward_clock); without it they are refuted on the faithful model and on the code (known finding F-roller-clock)",
@@ -45,7 +45,13 @@ WITNESS = {
 
     # started in period 5, clock then reads period 3; max_file_size 6, max_retained 1:
     # cleanup keeps app.<day5>.1 (the OLDER record) and deletes app.<day3>.1 (the newest)
-    "F-roller-clock": (ROLLER, "daily 6 1 - app .log _ 5 0 w 3 0 1 7 w 3 0 2 7 f", "backward-clock-order"),
+    "F-roller-clock": (ROLLER, "daily 6 1 - app .log _ 5 0 - w 3 0 1 7 w 3 0 2 7 f", "backward-clock-order"),
+    # appender "app" (max_retained 1) deletes "app.extra.<day3>.1.log", a rolled file of the sibling appender "app.extra"
+    # (residue of F-roller-prefix: the '.' after the prefix is now required, but the date regex is still unanchored)
+    "F-roller-dotted-sibling": (ROLLER, "daily 5 1 - app .log _ 7 1 d:3:1 w 7 1 1 6 w 7 1 2 7 f", "dotted-sibling-touched"),
+    # prefix "app.2024-01-01.7": every file parses as (2024-01-01, seq 7), numbering restarts at 1,
+    # the second size roll renames onto the first rolled file and destroys record 1
+    "F-roller-dated-prefix": (ROLLER, "never 10 - - app.2024-01-01.7 .log _ 0 0 - w 0 0 1 12 w 0 0 2 12 f", "dated-prefix-clobber"),
 }
 
 
@@ -83,9 +89,9 @@ _M_ROL = {
     "engines": [{"name": "E-ROLLER", "path": "coq/Log/Roller.v, coq/Proofs/RollerProofs.v, coq/Props/C20_roller.v, ocaml/eng_roller.ml, harness/seqdrv/src/bin/roller.rs, vlib/engines_roller.py",
                  "kind": "K2 model of CustomRoller (write_internal/roll/cleanup/compress/new_at_time + BufWriter) over an abstract directory; theorems for all policies and all op sequences by invariants; D1 differential tie through hook H5 in a scratch directory, directory listing compared after every op"}],
     "technique": "Coq proofs (invariants + induction over all op sequences and all policies) about an executable model of the rolling appender + differential correspondence of the extracted model against fibre_logging::verif::CustomRoller (real files, real gzip, injected clock) + property monitor over the real directory listings",
-    "text": "Coq theorems (Props/C20_roller.v), for every policy and every sequence of writes/empty writes/flushes/restarts: with a non-decreasing clock the rolled files in (period, seq) order followed by the active file are a suffix of the written stream, all of it when retention is unlimited (no loss/dup/reorder); with any clock and unlimited retention the files hold a permutation of the stream; a roll happens only between writes and the record that reaches the size limit is the last of the file it triggers (no tear, size rule); the rename target of a roll and the target of a compression never exist (never clobbers); at most max_retained rolled files exist and every deleted file is older than every retained one. The statement without the clock hypothesis is refuted (F-roller-clock) and the witness is replayed on the implementation.",
+    "text": "Coq theorems (Props/C20_roller.v), for every policy and every sequence of writes/empty writes/flushes/restarts: with a non-decreasing clock the rolled files in (period, seq) order followed by the active file are a suffix of the written stream, all of it when retention is unlimited (no loss/dup/reorder); with any clock and unlimited retention the files hold a permutation of the stream; a roll happens only between writes and the record that reaches the size limit is the last of the file it triggers (no tear, size rule); the rename target of a roll and the target of a compression never exist (never clobbers); at most max_retained rolled files exist and every deleted file is older than every retained one; foreign files (sibling appenders sharing the prefix, unrelated files) are never touched and influence nothing (C20_roller_foreign_untouched; F-roller-prefix fixed in /repo 95e064e). The statement without the clock hypothesis is refuted (F-roller-clock) and the witness is replayed on the implementation.",
     "design_ref": "DESIGN.md §8 C20, §10 (H5)",
-    "note": "Trusted: Coq kernel, ExtrOcamlBasic extraction + OCaml driver, the D1 harness/generator/monitor, chrono/flate2/std::fs. Modelled not verified: I/O failures, foreign files in the directory, crash without drop, u32 wrap, partial writes of buffers >= 8 KiB.",
+    "note": "Trusted: Coq kernel, ExtrOcamlBasic extraction + OCaml driver, the D1 harness/generator/monitor, chrono/flate2/std::fs. Modelled not verified: I/O failures, crash without drop, u32 wrap, partial writes of buffers >= 8 KiB.",
 }
 
 MANIFEST = {
